@@ -73,7 +73,7 @@ def check(run, ctx):
                   decides="adding a value to allowed_numbers removes exactly the violations of that value")
     imp = Implication(repo, RULE, _is_allowed_atom)
     for lang, fn in TRY_CREATE.items():
-        f = repo.func(f"{RULE}.{fn}")
+        f = repo.func_by_role(f"{RULE}.{fn}", f"the rule method that calls the builder {BUILDERS[lang]}", lambda g, b=BUILDERS[lang]: any(is_call_named(c, b) for c in ast.walk(g.node)))
         paths = func_paths(f)
         run.require(paths is not None, f"{fn}: too many paths")
         n_build = 0
@@ -149,7 +149,7 @@ def check(run, ctx):
         else:
             run.finding(M4, b, "line-or-message", f"{b}: line is {norm(line) if line is not None else None}, message names {sorted(msg_names)}", f.loc)
         # call site passes (value, line_number) of the same literal tuple
-        tc = repo.func(f"{RULE}.{TRY_CREATE[lang]}")
+        tc = repo.func_by_role(f"{RULE}.{TRY_CREATE[lang]}", f"the rule method that calls the builder {b}", lambda g, b=b: any(is_call_named(c, b) for c in ast.walk(g.node)))
         call = next(c for c in ast.walk(tc.node) if is_call_named(c, b))
         argn = [ast.unparse(a) for a in call.args] + [ast.unparse(k.value) for k in call.keywords]
         # (value, line_number) of one literal record: unpacked names, or fields of one record object (rec.value, rec.line_number)
